@@ -249,7 +249,8 @@ PROPS = {
                    'trajectory', 'accuracy of the trapezoidal discrete propagation '
                    '(propagate_errors) and of the discretisation in the filters']),
     'C03': dict(
-        rules=[frames.frame_suffix, simrules.sim_inc, simrules.sim_struct, simrules.sim_kin],
+        rules=[frames.frame_suffix, simrules.sim_inc, simrules.sim_struct, simrules.sim_kin,
+               simrules.sim_integ],
         decided=['rate-type readings satisfy the navigation equations assembled from earth.* for an '
                  'arbitrary smooth trajectory (symbolic, splines idealised as exact derivatives; '
                  'position and position+velocity forms); a body at rest senses exactly Earth rate '
@@ -257,9 +258,12 @@ PROPS = {
                  'closed-form increment readings equal the integrals of the second-order '
                  'rotation-vector kinematics of the spline polynomials (every coefficient)',
                  'frame / transposition discipline of every product (naming convention)',
-                 'spline-coefficient roles, first-sample duplication, documented tables'],
-        undecided=['spline interpolation error and its decay with the sampling interval',
-                   'the initial-position+velocity form (numerical integration of the velocity)',
+                 'spline-coefficient roles, first-sample duplication, documented tables',
+                 'initial-position form: the position is the solution of d(lla)/dt = '
+                 '(R2D VN/rn, R2D VE/rp, -VD) from the initial values (formal integrals, Picard '
+                 'iteration of the latitude equation): the three forms describe one motion'],
+        undecided=['spline interpolation / quadrature error and its decay with the sampling interval',
+                   'convergence of the latitude iteration within its 3 steps (1 cm test)',
                    'numerical reproduction of the trajectory by strapdown integration']),
 }
 
